@@ -10,6 +10,7 @@ Open Scope Z_scope.
 
 Section Tie.
 Variable call_ref : nat -> list pv -> pv.
+Variable prim : string -> list pv -> PyMini.res pv.
 
 (* the attributes of a Cursor object as the model's record *)
 Definition rows_pv (r : option (list pv)) : pv := match r with None => PNone | Some l => PList l end.
@@ -46,14 +47,14 @@ Proof.
 Qed.
 
 Theorem fetchone_src : forall c : cur pv,
-  call_method call_ref cursor_fetchone (flds c) [] =
+  call_method call_ref prim cursor_fetchone (flds c) [] =
   Ok (flds (fst (fetchone pv c)), res_pv (snd (fetchone pv c))).
 Proof.
   intros [r p n a it]. destruct r as [[|x t]|]; reflexivity.
 Qed.
 
 Theorem fetchmany_src : forall (c : cur pv) (size : option Z),
-  call_method call_ref cursor_fetchmany (flds c) [match size with None => PNone | Some n => PInt n end] =
+  call_method call_ref prim cursor_fetchmany (flds c) [match size with None => PNone | Some n => PInt n end] =
   Ok (flds (fst (fetchmany pv c size)), res_pv (snd (fetchmany pv c size))).
 Proof.
   intros [r p n a it] size. destruct r as [l|]; [|destruct size; reflexivity].
@@ -62,18 +63,18 @@ Proof.
 Qed.
 
 Theorem fetchall_src : forall c : cur pv,
-  call_method call_ref cursor_fetchall (flds c) [] =
+  call_method call_ref prim cursor_fetchall (flds c) [] =
   Ok (flds (fst (fetchall pv c)), res_pv (snd (fetchall pv c))).
 Proof.
   intros [r p n a it]. destruct r as [l|]; reflexivity.
 Qed.
 
 Theorem rowcount_src : forall c : cur pv,
-  call_method call_ref cursor_rowcount (flds c) [] = Ok (flds c, PInt (count pv c)).
+  call_method call_ref prim cursor_rowcount (flds c) [] = Ok (flds c, PInt (count pv c)).
 Proof. intros [r p n a it]; reflexivity. Qed.
 
 Theorem rownumber_src : forall c : cur pv,
-  call_method call_ref cursor_rownumber (flds c) [] = Ok (flds c, PInt (pos pv c)).
+  call_method call_ref prim cursor_rownumber (flds c) [] = Ok (flds c, PInt (pos pv c)).
 Proof. intros [r p n a it]; reflexivity. Qed.
 
 End Tie.
